@@ -434,7 +434,7 @@ func (ex *Exec) assert(s *State, id string, cond *Term) {
 				r = Unknown
 			}
 		}
-	} else if qm := ex.quickCounterexample(s.PC, cond, 3); qm != nil {
+	} else if qm := ex.quickCounterexample(s.PC, cond, 8); qm != nil {
 		// found by concrete evaluation; reported only after native replay like any other
 		ex.quickModel = qm
 		r = Sat
